@@ -347,8 +347,12 @@ func TestC04(t *testing.T) {
 	report.Regress(st, "C04")
 	active := report.ActiveFindings(st, "C04")
 
+	ncase := 0
 	run := func(stream string, c ParamCase) bool {
 		st.Eval()
+		if ncase++; ncase%40 == 0 {
+			dirtyState()
+		}
 		if active["quoted-star-range-bound"] && (hasStarBound(c.Tree) || (c.Tree2 != nil && hasStarBound(c.Tree2))) {
 			st.Excluded("quoted-star-range-bound")
 			return true
